@@ -57,8 +57,8 @@ var fieldProps = []struct {
 	{"resendContext.", "C03 C18 C19"},
 	{"Conversation.injections", "C06 C19"},
 	{"injections.", "C06 C19"},
-	{"Conversation.heartbeat", "C19"},
-	{"heartbeatContext.", "C19"},
+	{"Conversation.heartbeat", "C04 C06 C19"},
+	{"heartbeatContext.", "C04 C06 C19"},
 	{"Conversation.lastMessageStateChange", "C07"},
 }
 
@@ -319,6 +319,22 @@ func genTables(a *An) {
 	}
 	fmt.Println("}")
 	fmt.Println()
+	fmt.Println("var frozenStateCallers = map[string][]string{")
+	sc, _ := a.currentStateCallers()
+	keys = keys[:0]
+	for k := range sc {
+		keys = append(keys, k)
+	}
+	sort.Strings(keys)
+	for _, k := range keys {
+		var q []string
+		for _, x := range sc[k] {
+			q = append(q, fmt.Sprintf("%q", x))
+		}
+		fmt.Printf("\t%q: {%s},\n", k, strings.Join(q, ", "))
+	}
+	fmt.Println("}")
+	fmt.Println()
 	fmt.Println("var frozenEvents = map[string][]string{")
 	ev := a.currentEvents()
 	keys = keys[:0]
@@ -454,4 +470,137 @@ func (a *An) ownersOf(f *ssa.Function, depth int) []string {
 		return []string{a.C.Name(f)}
 	}
 	return sortedKeys(set)
+}
+
+// ---- callers of functions that change session state ---------------------------------------------------------------
+// For every function of the two packages whose effects include a write to a field of the session state, the set of
+// functions that call it is a closed table as well: a new call of such a function moves session state in a new place
+// or at a new moment (a wipe where none was, a timer reset on an error path, a handler invoked out of turn).
+
+// stateFieldsWritten: the "Type.field" keys (closedStateTypes) a function writes, transitively, by its effect summary.
+func (a *An) stateFieldsWritten(f *ssa.Function) []string {
+	set := map[string]bool{}
+	for _, ef := range a.E.Of(f) {
+		p := a.C.abs(f, ef.Path)
+		parts := strings.Split(p, ".")
+		if len(parts) < 2 {
+			continue
+		}
+		// walk the path from its root type, collecting every Type.field step that belongs to a state type
+		obj := a.C.Otr.Pkg.Scope().Lookup(parts[0])
+		if obj == nil {
+			continue
+		}
+		t := obj.Type()
+		for i := 1; i < len(parts); i++ {
+			name := parts[i]
+			if j := strings.IndexAny(name, "[#"); j >= 0 {
+				name = name[:j]
+			}
+			for {
+				if pt, ok := t.Underlying().(*types.Pointer); ok {
+					t = pt.Elem()
+					continue
+				}
+				if sl, ok := t.Underlying().(*types.Slice); ok {
+					t = sl.Elem()
+					continue
+				}
+				break
+			}
+			st, ok := t.Underlying().(*types.Struct)
+			if !ok {
+				break
+			}
+			tn := ""
+			if n, isN := t.(*types.Named); isN {
+				tn = n.Obj().Name()
+			}
+			var ft types.Type
+			for k := 0; k < st.NumFields(); k++ {
+				if st.Field(k).Name() == name {
+					ft = st.Field(k).Type()
+				}
+			}
+			if ft == nil {
+				break
+			}
+			for _, ct := range closedStateTypes {
+				if ct == tn {
+					set[tn+"."+name] = true
+				}
+			}
+			t = ft
+		}
+	}
+	return sortedKeys(set)
+}
+
+// currentStateCallers: callee (a function that writes session state) → sorted names of the functions that call it.
+func (a *An) currentStateCallers() (map[string][]string, map[string][]string) {
+	callers := map[string][]string{}
+	fields := map[string][]string{}
+	for _, g := range a.C.FuncSeq {
+		if g.Blocks == nil || g.Parent() != nil || (a.C.isNew(g) && len(a.CallSites(g)) > 0) {
+			continue
+		}
+		fw := a.stateFieldsWritten(g)
+		if len(fw) == 0 {
+			continue
+		}
+		set := map[string]bool{}
+		for _, cs := range a.CallSites(g) {
+			if cs.Parent() == g {
+				continue
+			}
+			for _, o := range a.ownersOf(cs.Parent(), 0) {
+				set[o] = true
+			}
+		}
+		name := a.C.Name(g)
+		callers[name] = sortedKeys(set)
+		fields[name] = fw
+	}
+	return callers, fields
+}
+
+func (a *An) closedStateCallers(prop string) {
+	R := a.R
+	cur, fields := a.currentStateCallers()
+	n := 0
+	for _, callee := range sortedKeys(func() map[string]bool {
+		m := map[string]bool{}
+		for k := range cur {
+			m[k] = true
+		}
+		return m
+	}()) {
+		relevant := false
+		for _, fk := range fields[callee] {
+			if strings.Contains(propsOfField(fk), prop) {
+				relevant = true
+			}
+		}
+		if !relevant {
+			continue
+		}
+		frozen, known := frozenStateCallers[callee]
+		if !known {
+			continue // a function that newly writes state is reported by W.state
+		}
+		n++
+		allow := map[string]bool{}
+		for _, w := range frozen {
+			allow[w] = true
+		}
+		var extra []string
+		for _, w := range cur[callee] {
+			if !allow[w] {
+				extra = append(extra, w)
+			}
+		}
+		R.Check(len(extra) == 0, "W.state-calls", "callers|"+callee, "the functions that call "+callee+" (which writes session state) are the reviewed ones", "",
+			"new caller(s): "+strings.Join(extra, ", ")+" — "+callee+" writes "+strings.Join(fields[callee], ", ")+"; that state now changes in a place or at a moment where it did not change before")
+	}
+	R.Extra["state_writing_functions_with_closed_caller_sets"] = n
 }
